@@ -28,6 +28,7 @@ CODES = {
     5: "something other than states/reason changed in a plan that must not be resumed",
     6: "observation list and store differ in length",
     7: "a live Running plan was not resumed but closed with reason ExceedRecovery",
+    8: "the Vault implements storage.Recovery but coercion.New used it (Search/Read/Update*) before calling Recovery(), or never called it",
     9: "inconclusive: the age boundary fell between the clock readings before and after coercion.New",
 }
 
@@ -96,6 +97,10 @@ def run(ctx):
                 return "aged-plan-half-closed"
             if code == 7:
                 return "live-plan-closed"
+            if code == 8:
+                return "vault-used-before-its-recovery"
+            if c["dist"].get("stale_index_plans") and o is not None and (c.get("observed") or []).index(o) in c["dist"]["stale_index_plans"]:
+                return "terminal-plan-listed-by-stale-index-touched"
             return "code-%s" % code
         groups = {}
         for x in bad:
@@ -113,12 +118,19 @@ def run(ctx):
                     plan_obs.get("after_status"), plan_obs.get("after_reason"))
                 if str(plan_obs.get("witness", "")).startswith("attempt."):
                     why += " -- the recent record is an attempt: lastUpdate ignores attempts"
+            elif k == "vault-used-before-its-recovery":
+                why = "the Vault implements storage.Recovery; calls in order of first use: %s; calls made before Recovery(): %s" % (
+                    c["dist"].get("vault_call_order"), (c["dist"].get("calls_before_recovery") or [])[:8])
+            elif k == "terminal-plan-listed-by-stale-index-touched":
+                why += " -- this plan is durably %s; the Vault's search index still listed it as Running until Recovery(); afterwards %s/%s, %d plugin call(s), %d vault write(s); vault calls in order of first use: %s" % (
+                    plan_obs.get("status"), plan_obs.get("after_status"), plan_obs.get("after_reason"), plan_obs.get("plugin_calls", 0),
+                    plan_obs.get("vault_writes", 0), c["dist"].get("vault_call_order"))
             elif plan_obs and plan_obs.get("status") == "Running" and plan_obs.get("after_status") == "Failed" and plan_obs.get("after_reason") != "FRExceedRecovery":
                 why += " -- aged plan closed with stored reason %s instead of FRExceedRecovery" % plan_obs.get("after_reason")
             ctx.violation(dict(
                 kind="recovery-selection-differs" if not monfalse else "property-violated", failure_class=k,
                 why=why, monitor_false=monfalse, case=c["id"], input=c["input"], dist=c["dist"], offending_plan=plan_obs,
-                store=c["observed"], failing_cases=len(xs), failing_cases_all_classes=len(bad), case_coq=c["coq"],
+                store=c.get("observed") or [], failing_cases=len(xs), failing_cases_all_classes=len(bad), case_coq=c["coq"],
                 broken=None if monfalse else "corr_ok (SelectCheck.case_ok): the implementation's recovery left a store the model does not predict",
                 replay_cmd="VERIF_SEED=%s ./check C11 --tier %s   (store index %s; or ./check C11 --replay <this file>)"
                            % (ctx.seed, ctx.tier, c["input"].get("index"))),
@@ -152,6 +164,11 @@ def run(ctx):
             recovery_flag=fw.histogram(c["dist"]["recovery"] for c in good),
             max_age=fw.histogram(c["dist"]["max_age"] for c in good),
             file_backed=fw.histogram(c["dist"]["file_backed"] for c in good),
+            vault_implements_storage_recovery=fw.histogram(bool(c["dist"].get("indexed_vault")) for c in good),
+            stale_index_entries_per_indexed_vault=fw.histogram(len(c["dist"].get("stale_index_plans") or []) for c in good if c["dist"].get("indexed_vault")),
+            vault_call_order=fw.histogram(">".join(c["dist"].get("vault_call_order") or []) for c in good if c["dist"].get("indexed_vault")),
+            status_of_plans_listed_by_stale_index=fw.histogram((c.get("observed") or [])[j]["status"] + "/" + (c.get("observed") or [])[j]["age_kind"]
+                                                              for c in good for j in (c["dist"].get("stale_index_plans") or [])),
             option_order_when_both_passed=fw.histogram(c["dist"].get("option_order") for c in good
                                                        if not c["dist"]["recovery"] and c["dist"]["max_age"] != "default30m"),
             status_before=fw.histogram(d["status"] for d in plans),
@@ -174,5 +191,6 @@ def run(ctx):
         "resumption is observed as 'plugin call or vault write for the plan'; what a resumed plan then does is C09/C10's matter, a resumed plan that misses the deadline is only counted",
         "Wait's knowledge of an id is not directly observable through the public API (Workstream.Wait falls back to Read for unknown ids); it is observed through the waiting itself",
         "the harness's abstraction of plans to Coq terms (ids interned per store), its own walk-order traversal, the logging/limiting vault wrappers",
+        "storage.Recovery contract: 30% of the stores are opened through a Vault wrapper that implements storage.Recovery and whose Search(Running) lists one or two durably terminal plans as Running until Recovery() has been called (a search index that lags the plan rows after a crash, as cosmosdb's can); observed: Recovery() is called before the first Search/Read/Update*, and the listed plan is neither executed nor written (theorem c11_storage_recovery_first; the real cosmosdb Recovery is not exercised here)",
         "lastUpdate counts the start/end of every object and of every attempt of every action (since fix d8f84b2, R4); the 'attempt-recent' cases (all states far older than maxAge, one attempt 1 ms old) must be resumed",
     ])
